@@ -28,12 +28,13 @@ CONSTANTS
   Perms,                \* dispatcher key permutations explored: subset of {"id","rev","rot"}
   Shuffles,             \* block shuffles explored: subset of {"id","rev","rot"}
   Hardenings,           \* subset of {"none","xor","delegate"}
+  HardenUps,            \* subset of BOOLEAN (TRUE must be a member): ascending / descending representative key sequences
   HardenGks,            \* global keys explored by the CFG runs (5 must be a member); the algebra is exhaustive over 0..KMax
   AllowSplitAfterTrash, \* FALSE: do not explore block_splits>0 together with trash_blocks>0 (see F14)
   HonourBlacklist,      \* TRUE = generateKeys as the code has it; FALSE = what-if (mutant)
   ReserveZero,          \* TRUE = dispatcher keys are Perm(n)+1 as the code has it; FALSE = what-if (mutant)
   SplitFixesPreds,      \* TRUE = applySplitting rewrites succ.Preds as the code has it; FALSE = what-if (mutant)
-  Fuel,                 \* interpreter step bound
+  FuelOnePass, FuelTwoPass,  \* interpreter step bounds (blocks executed) after one / two flattening passes
   KMax,                 \* hardening keys are drawn from 0..KMax
   LeadsFile             \* where the shape table / predictions are serialised ("" = do not)
 
@@ -163,7 +164,6 @@ Skeleton(g) == [i \in 1..Len(g) |-> [nphis |-> Len(g[i].phis), exit |-> g[i].exi
 -----------------------------------------------------------------------------
 (* Interpreters                                                               *)
 
-Inputs == {[n |-> k, a |-> 1, b |-> 2] : k \in 0..3}
 InputSeq == [k \in 1..4 |-> [n |-> k - 1, a |-> 1, b |-> 2]]
 
 BlockVars(b) == {b.phis[j].d : j \in 1..Len(b.phis)} \cup {b.ops[j].d : j \in {q \in 1..Len(b.ops) : b.ops[q].k = "op"}}
@@ -182,24 +182,36 @@ RunOps(ops, i, env, tr) ==
 
 Res(st, tr, ret) == [st |-> st, tr |-> tr, ret |-> ret]
 
+(* TLC notes.  (1) The interpreters are small-step functions folded over a fuel sequence with
+   SequencesExt!FoldLeft (Java override, strict) instead of recursive operators: arguments of recursive
+   operators are lazy thunks that chain through the recursion, which makes a run quadratic in its length.
+   (2) LET-bound and argument expressions are re-evaluated on use; binding them through a set
+   ({... : x \in {e}}) forces a single evaluation. *)
+FuelFor(gg) == IF Len(gg) <= 12 THEN 80 ELSE IF Len(gg) <= 70 THEN FuelOnePass ELSE FuelTwoPass
+FuelSeq(gg) == [i \in 1..FuelFor(gg) |-> i]
+St0(env) == [b |-> 1, p |-> 0, env |-> env, tr |-> <<>>, st |-> "run", ret |-> 0]
+Fin(s) == Res(IF s.st = "run" THEN "fuel" ELSE s.st, s.tr, s.ret)
+
 (* SSA semantics: on entry to block b from block p the phis read edge         *)
 (* index(p in Preds) in parallel.                                             *)
 PredIdx(preds, p) == CHOOSE i \in 1..Len(preds) : preds[i] = p
-RECURSIVE SsaRun(_, _, _, _, _, _)
-SsaRun(g, b, p, env, tr, fuel) ==
-  IF fuel = 0 THEN Res("fuel", tr, 0) ELSE
-  LET blk  == g[b]
-      env1 == IF Len(blk.phis) = 0 \/ p = 0 THEN env
-              ELSE LET pi == PredIdx(blk.preds, p)
+SsaStep(gg, s) ==
+  IF s.st # "run" THEN s ELSE
+  LET blk  == gg[s.b]
+      env  == s.env
+      env1 == IF Len(blk.phis) = 0 \/ s.p = 0 THEN env
+              ELSE LET pi == PredIdx(blk.preds, s.p)
                        ds == {blk.phis[j].d : j \in 1..Len(blk.phis)}
                    IN [v \in DOMAIN env |-> IF v \in ds
                          THEN Eval(blk.phis[CHOOSE j \in 1..Len(blk.phis) : blk.phis[j].d = v].e[pi], env)
                          ELSE env[v]]
-      r    == RunOps(blk.ops, 1, env1, tr)
-  IN CASE blk.exit.k = "ret"  -> Res("ret", r.tr, Eval(blk.exit.a, r.env))
-       [] blk.exit.k = "jump" -> SsaRun(g, blk.succs[1], b, r.env, r.tr, fuel - 1)
-       [] blk.exit.k = "if"   -> SsaRun(g, IF Eval(blk.exit.a, r.env) # 0 THEN blk.succs[1] ELSE blk.succs[2], b, r.env, r.tr, fuel - 1)
-Ssa(g, in) == SsaRun(g, 1, 0, Env0(g, in, <<>>), <<>>, Fuel)
+      r    == RunOps(blk.ops, 1, env1, s.tr)
+      nxt(t) == [b |-> t, p |-> s.b, env |-> r.env, tr |-> r.tr, st |-> "run", ret |-> 0]
+  IN CASE blk.exit.k = "ret"  -> [s EXCEPT !.st = "ret", !.tr = r.tr, !.ret = Eval(blk.exit.a, r.env)]
+       [] blk.exit.k = "jump" -> nxt(blk.succs[1])
+       [] blk.exit.k = "if"   -> nxt(IF Eval(blk.exit.a, r.env) # 0 THEN blk.succs[1] ELSE blk.succs[2])
+SsaAll(gg) == CHOOSE r \in {[k \in 1..4 |-> Fin(FoldLeft(LAMBDA s, i : SsaStep(x, s), St0(Env0(x, InputSeq[k], <<>>)), FuelSeq(x)))]
+                              : x \in {gg}} : TRUE
 
 (* Lowering: the assignments that end up in block b (AstBlock.Phi), in the    *)
 (* order convertToStmts/convertBlock produce them.                            *)
@@ -225,25 +237,26 @@ AssignPar(pa, env) == [v \in DOMAIN env |->
    THEN Eval(pa[CHOOSE i \in 1..Len(pa) : pa[i].d = v /\ \A q \in (i+1)..Len(pa) : pa[q].d # v].o, env)
    ELSE env[v]]
 
-RECURSIVE LowRun(_, _, _, _, _, _, _)
-LowRun(g, pa, mode, b, env, tr, fuel) ==
-  IF fuel = 0 THEN Res("fuel", tr, 0) ELSE
-  LET blk == g[b]
-      r   == RunOps(blk.ops, 1, env, tr)
-  IN IF r.trash THEN Res("trash", r.tr, 0) ELSE
-     LET env2 == IF mode = "seq" THEN AssignSeq(pa[b], 1, r.env) ELSE AssignPar(pa[b], r.env)
-     IN CASE blk.exit.k = "ret"  -> Res("ret", r.tr, Eval(blk.exit.a, env2))
-          [] blk.exit.k = "jump" -> LowRun(g, pa, mode, blk.succs[1], env2, r.tr, fuel - 1)
-          [] blk.exit.k = "if"   -> LowRun(g, pa, mode, IF Eval(blk.exit.a, env2) # 0 THEN blk.succs[1] ELSE blk.succs[2], env2, r.tr, fuel - 1)
-Low(g, in, pro)    == LowRun(g, PhiAssigns(g), "seq", 1, Env0(g, in, pro), <<>>, Fuel)
-LowPar(g, in, pro) == LowRun(g, PhiAssigns(g), "par", 1, Env0(g, in, pro), <<>>, Fuel)
+LowStep(gg, pa, mode, s) ==
+  IF s.st # "run" THEN s ELSE
+  LET blk == gg[s.b]
+      r   == RunOps(blk.ops, 1, s.env, s.tr)
+  IN IF r.trash THEN [s EXCEPT !.st = "trash", !.tr = r.tr] ELSE
+     LET env2 == IF mode = "seq" THEN AssignSeq(pa[s.b], 1, r.env) ELSE AssignPar(pa[s.b], r.env)
+         nxt(t) == [b |-> t, p |-> s.b, env |-> env2, tr |-> r.tr, st |-> "run", ret |-> 0]
+     IN CASE blk.exit.k = "ret"  -> [s EXCEPT !.st = "ret", !.tr = r.tr, !.ret = Eval(blk.exit.a, env2)]
+          [] blk.exit.k = "jump" -> nxt(blk.succs[1])
+          [] blk.exit.k = "if"   -> nxt(IF Eval(blk.exit.a, env2) # 0 THEN blk.succs[1] ELSE blk.succs[2])
+LowAll(gg, pp, mode) ==
+  CHOOSE r \in {[k \in 1..4 |-> Fin(FoldLeft(LAMBDA s, i : LowStep(x[1], x[2], mode, s), St0(Env0(x[1], InputSeq[k], pp)), FuelSeq(x[1])))]
+                  : x \in {<<gg, PhiAssigns(gg)>>}} : TRUE
 
 -----------------------------------------------------------------------------
 (* Predictions for the untransformed shapes (constant level, cached by TLC)   *)
 
-RefTable    == [id \in ShapeIds |-> [k \in 1..4 |-> Ssa(Cfg0(id), InputSeq[k])]]
-LowTable    == [id \in ShapeIds |-> [k \in 1..4 |-> Low(Cfg0(id), InputSeq[k], <<>>)]]
-LowParTable == [id \in ShapeIds |-> [k \in 1..4 |-> LowPar(Cfg0(id), InputSeq[k], <<>>)]]
+RefTable    == [id \in ShapeIds |-> SsaAll(Cfg0(id))]
+LowTable    == [id \in ShapeIds |-> LowAll(Cfg0(id), <<>>, "seq")]
+LowParTable == [id \in ShapeIds |-> LowAll(Cfg0(id), <<>>, "par")]
 
 (* Shapes that the lowering, as the code has it, miscompiles; with the cause. *)
 BadShapes == {id \in ShapeIds : LowTable[id] # RefTable[id]}
@@ -290,8 +303,7 @@ VARIABLES sid, g, stage, cnt, pro, status, lastDisp,
           runs    \* the lowered function's behaviour on every input, recomputed by every action
 vars == <<sid, g, stage, cnt, pro, status, lastDisp, runs>>
 
-RunsOf(gg, pp) == LET pa == PhiAssigns(gg) IN
-                  [k \in 1..4 |-> LowRun(gg, pa, "seq", 1, Env0(gg, InputSeq[k], pp), <<>>, Fuel)]
+RunsOf(gg, pp) == LowAll(gg, pp, "seq")
 
 HasSuccs(b) == Len(b.succs) > 0
 Candidates == {i \in 1..Len(g) : HasSuccs(g[i])}
@@ -463,7 +475,7 @@ Next == /\ status = "ok"
            \/ Advance("junk", "flat")
            \/ \E pk \in Perms : \E sk \in Shuffles : Flatten(pk, sk)
            \/ Advance("flat", "harden")
-           \/ \E kind \in Hardenings : \E gk \in HardenGks : \E up \in BOOLEAN : Harden(kind, gk, up)
+           \/ \E kind \in Hardenings : \E gk \in HardenGks : \E up \in HardenUps : Harden(kind, gk, up)
 
 Spec == Init /\ [][Next]_vars
 
